@@ -226,6 +226,16 @@ pub fn generate(prop: &str, thorough: bool, seed: u64, part: (usize, usize), em:
         }
     }
     if part.0 == 0 {
+        // 3d. wide bitmaps (the width is a free 16-bit field; 8192 is only the largest DESKTOP width): well-formed planar
+        // and interleaved streams that run over whole scanlines
+        let mut rw = Rng::new(seed ^ 0x5eed_08);
+        for &(w, h) in &[(8192usize, 2usize), (8193, 1), (8193, 2), (9000, 2), (20000, 1), (65535, 1), (65535, 2)] {
+            let d = gen_planar(&mut rw, w, h, true); emit(em, w, h, 32, true, &d);
+            let d = gen_planar_longrun(&mut rw, 3, 47, h); emit(em, 50, h, 32, true, &d);
+            let d = gen_rle16(&mut rw, w, h, true, true); emit(em, w, h, 16, true, &d);
+        }
+    }
+    if part.0 == 0 {
         // 3c. the same compressed stream decoded twice in a row with different geometries of the same pixel count
         let shapes: [(usize, usize); 4] = [(4, 2), (2, 4), (8, 1), (1, 8)];
         let mut datas: Vec<(u16, Vec<u8>)> = vec![];
